@@ -1,5 +1,4 @@
 // ================= U10 prelude =================
-impl AccountInfo { pub fn clone(&self) -> (r: Self) ensures r == *self { *self } }
 #[derive(Clone, Copy, PartialEq, Eq, Structural)] pub struct DeferredBeneficiaryReward(pub U256);
 // TRUSTED: parking_lot::RwLock. Writers: lock-scoped (the view at acquisition is arbitrary).
 // Readers: one fixed abstract value `cur()` per call (DESIGN §3.1).
